@@ -106,6 +106,19 @@ class StatsRun:
         for a in self.pubs:
             if a.req_id == 0:
                 a.learn_id()
+        if ch.flag("cfg.dyn_churn", 1, 10):
+            # over a hundred modules with manager-assigned ids have come and gone before (the id counter has wrapped);
+            # one of them stays: every id handed out must still have a slot in the report
+            nchurn = 100 + ch.pick("cfg.dyn_churn_n", 6)
+            for i in range(nchurn):
+                x = Actor(w, f"dyn{i}")
+                x.open()
+                x.handshake("v2v1", req_id=0, pid=30000 + i)
+                w.quiesce()
+                if i < nchurn - 1:
+                    x.leave("fin")
+                    w.quiesce()
+            self.res.probes["dynamic_ids_wrapped"] += 1
         # sometimes a module of this very process takes part through the public client API: the process id it
         # reports is whatever os.getpid() says when it connects
         self.real_client = None
